@@ -14,6 +14,10 @@ from mako.ext.extract import MessageExtractor
 class BabelMakoExtractor(MessageExtractor):
     def __init__(self, keywords, comment_tags, options):
         self.keywords = keywords
+        if "input_encoding" in options and "encoding" not in options:
+            # babel's python extractor decodes the code it is handed,
+            # which is in the template's encoding, with this option
+            options = dict(options, encoding=options["input_encoding"])
         self.options = options
         self.config = {
             "comment-tags": " ".join(comment_tags),
